@@ -113,6 +113,9 @@ def trickyTys : List Ty :=
    .path false [.mk "Vec" [.ty (.path true [.mk "T" []])]], .never, .ref none false (Ty.simple "str"),
    -- possibly unsized (matters for a last field)
    .slice (Ty.simple "u8"), Ty.simple "str", .dynT false [.mk "Tr2" [.ty (Ty.simple "u8")]], .path false [.mk "m" [], .mk "str" []],
+   -- … behind parentheses, and a parameter written as a raw identifier (F37)
+   .paren (.dynT false [.mk "Tr2" [.ty (Ty.simple "u8")]] [["Send"]]), .paren (.paren (Ty.simple "str")), .paren (.slice (Ty.simple "u8")),
+   Ty.simple "r#T", .paren (Ty.simple "r#T"), Ty.simple "r#str",
    .dynT false [.mk "Tr2" [.ty (Ty.simple "u8")]] [["Send"], ["Sync"]], .dynT true [.mk "core" [], .mk "fmt" [], .mk "Debug" []] [["'static"]],
    .path true [.mk "str" []],
    .dynT false [.fn "Fn" [Ty.simple "u8"] (some (Ty.simple "u8"))], Ty.app "Box" [.dynT false [.fn "Fn" [.path true [.mk "T" []]] none]]]
